@@ -12,6 +12,8 @@ package main
 // Only instances of hypotheses are added, so `unsat` of the resulting query is sound.
 
 import (
+	"fmt"
+	"os"
 	"sort"
 	"strings"
 )
@@ -27,11 +29,13 @@ type dinst struct {
 	out       []*Term
 }
 
-func (d *dinst) leaves(a *Term) map[*Term]bool {
+// subs: the array terms whose cells a may share through its store/ite structure: a itself, the arrays it was
+// stored over, the array values stored into it, and (for an element of an array of arrays) those of the outer array.
+func (d *dinst) subs(a *Term) map[*Term]bool {
 	if r, ok := d.leafCache[a]; ok {
 		return r
 	}
-	r := map[*Term]bool{}
+	r := map[*Term]bool{a: true}
 	d.leafCache[a] = r
 	add := func(m map[*Term]bool) {
 		for k := range m {
@@ -40,37 +44,39 @@ func (d *dinst) leaves(a *Term) map[*Term]bool {
 	}
 	switch a.Op {
 	case "store":
-		add(d.leaves(a.Args[0]))
+		add(d.subs(a.Args[0]))
 		if a.Args[2].S.K == KArray {
-			add(d.leaves(a.Args[2]))
+			add(d.subs(a.Args[2]))
 		}
 	case "ite":
-		add(d.leaves(a.Args[1]))
-		add(d.leaves(a.Args[2]))
+		add(d.subs(a.Args[1]))
+		add(d.subs(a.Args[2]))
 	case "select":
-		add(d.leaves(a.Args[0]))
+		add(d.subs(a.Args[0]))
 	case "constarr":
-		r[a] = true
 		if a.Args[0].S.K == KArray {
-			add(d.leaves(a.Args[0]))
+			add(d.subs(a.Args[0]))
 		}
-	default:
-		r[a] = true
 	}
 	return r
 }
 
-func (d *dinst) intersects(a, b *Term) bool {
-	la, lb := d.leaves(a), d.leaves(b)
-	if len(la) > len(lb) {
-		la, lb = lb, la
+// related: may an instance about reads of the pattern array p say something about the ground array g?
+func (d *dinst) related(p, g *Term) bool {
+	if p == g {
+		return true
 	}
-	for k := range la {
-		if lb[k] {
-			return true
+	if len(p.fb) > 0 {
+		// the array itself depends on the bound variable (e.g. M[H[k]]): compare the outer arrays
+		if p.Op == "select" && g.Op == "select" {
+			return d.related(p.Args[0], g.Args[0])
 		}
+		if p.Op == "select" {
+			return d.related(p.Args[0], g)
+		}
+		return false
 	}
-	return false
+	return d.subs(g)[p] || d.subs(p)[g]
 }
 
 // addGround registers the closed select terms and uninterpreted applications of t as relevant.
@@ -212,13 +218,24 @@ func (d *dinst) candidates(b *Term, trigs []trig, limit int) []*Term {
 	for _, s := range d.skolems[b.S] {
 		add(s)
 	}
+	hasSel := false
 	for _, tr := range trigs {
+		if tr.sel {
+			hasSel = true
+		}
+	}
+	for _, tr := range trigs {
+		if !tr.sel && hasSel {
+			// applications only determine variables that no array read determines (avoids matching loops through
+			// syntactically different but equal keys)
+			continue
+		}
 		if tr.sel {
 			for _, g := range d.selBySort[tr.arr.S] {
 				if len(out) >= limit {
 					break
 				}
-				if !d.intersects(tr.arr, g.Args[0]) {
+				if !d.related(tr.arr, g.Args[0]) {
 					continue
 				}
 				if v, ok := solveFor(tr.idx, b, g.Args[1]); ok {
@@ -334,8 +351,11 @@ func itoa(n int) string {
 	return string(b[i:])
 }
 
-// Directed returns the quantifier-free query built by goal-directed trigger matching (nil when not applicable).
-func (q *Query) Directed(rounds int) *Query {
+// DirectedStages returns quantifier-free queries of increasing size built by goal-directed trigger matching:
+// stage (r, n) has the instances of the first r matching rounds and the quantifier-free hypotheses within n steps
+// of the goal and those instances (n < 0: all of them). Every stage only has hypotheses implied by the original
+// ones, so `unsat` of any stage is sound; `sat` of a stage just means that more is needed.
+func (q *Query) DirectedStages(rounds int) []*Query {
 	if q.Goal == nil {
 		return nil
 	}
@@ -375,7 +395,8 @@ func (q *Query) Directed(rounds int) *Query {
 	for _, h := range near {
 		d.addGround(h)
 	}
-	var insts []*Term
+	var perRound [][]*Term
+	uniq := map[*Term]bool{}
 	for r := 0; r < rounds; r++ {
 		var fresh []*Term
 		for _, h := range qhyps {
@@ -384,21 +405,50 @@ func (q *Query) Directed(rounds int) *Query {
 		if len(fresh) == 0 {
 			break
 		}
-		insts = append(insts, fresh...)
+		var fr []*Term
 		for _, f := range fresh {
+			if !uniq[f] {
+				uniq[f] = true
+				fr = append(fr, f)
+			}
 			d.addGround(f)
 		}
-	}
-	uniq := map[*Term]bool{}
-	var out []*Term
-	for _, t := range insts {
-		if !uniq[t] {
-			uniq[t] = true
-			out = append(out, t)
+		sort.SliceStable(fr, func(i, j int) bool { return fr[i].id < fr[j].id })
+		perRound = append(perRound, fr)
+		if os.Getenv("GOVC_DEBUG") != "" {
+			fmt.Fprintf(os.Stderr, "dinst round %d: %d quantified hyps, %d qf hyps (%d near), %d new instances\n", r, len(qhyps), len(qf), len(near), len(fr))
 		}
 	}
-	sort.SliceStable(out, func(i, j int) bool { return out[i].id < out[j].id })
-	return &Query{Hyps: append(append([]*Term{}, qf...), out...), Goal: goal, Extra: q.Extra, FPMode: q.FPMode}
+	if len(perRound) == 0 {
+		return nil
+	}
+	type stage struct{ r, n int }
+	var plan []stage
+	for r := 1; r <= len(perRound); r++ {
+		if r == 1 {
+			plan = append(plan, stage{r, 1})
+		}
+		plan = append(plan, stage{r, 2}, stage{r, -1})
+	}
+	var out []*Query
+	lastSize := -1
+	for _, sg := range plan {
+		var insts []*Term
+		for r := 0; r < sg.r; r++ {
+			insts = append(insts, perRound[r]...)
+		}
+		hy := qf
+		if sg.n >= 0 {
+			hy = nearHyps(And(append([]*Term{goal}, insts...)...), qf, sg.n)
+		}
+		size := len(hy)*100000 + len(insts)
+		if size == lastSize {
+			continue
+		}
+		lastSize = size
+		out = append(out, &Query{Hyps: append(append([]*Term{}, hy...), insts...), Goal: goal, Extra: q.Extra, FPMode: q.FPMode})
+	}
+	return out
 }
 
 // nearHyps: the hypotheses within `rounds` steps of the goal in the shares-a-symbol graph (very common symbols do not connect).
